@@ -37,7 +37,8 @@ impl GenLine {
 /// `name = <line>` followed by a use of the name
 fn with_variable(value: Line, use_kind: u8, name_pick: u8) -> (Vec<Line>, Line) {
     // two names with non-ASCII letters whose case mapping is one-to-one (case variation must not matter for them either)
-    let names = ["total", "rent", "net amount", "bonus", "ürün", "цена нетто"];
+    // ... and two names spelled like zone abbreviations (a name is a name, whatever else the word could mean)
+    let names = ["total", "rent", "net amount", "bonus", "ürün", "цена нетто", "cat", "west"];
     let name = names[name_pick as usize % names.len()];
     let mut def = Line::default();
     for w in name.split(' ') {
@@ -104,7 +105,8 @@ pub fn any_line() -> impl Strategy<Value = GenLine> {
     let c02 = crate::c02::expr_strategy(4, 12).prop_map(|e| GenLine::simple(crate::c02::to_line(&e), "C02"));
     let c05 = crate::c05::case_strategy().prop_map(|c| GenLine::simple(crate::c05::case_line(&c), "C05"));
     let c06 = crate::c06::shape_strategy().prop_map(|s| GenLine::simple(crate::c06::shape_line(&s), "C06"));
-    let c09 = crate::c09::case_strategy().prop_map(|c| GenLine { prelude: vec![], line: crate::c09::case_line(&c), lang: c.lang.clone(), tz: None, src: "C09".into() });
+    // (the default zone of the C09 case travels with the line: printing a date must not depend on it)
+    let c09 = crate::c09::case_strategy().prop_map(|c| GenLine { prelude: vec![], line: crate::c09::case_line(&c), lang: c.lang.clone(), tz: c.tz.clone(), src: "C09".into() });
     let c10 = crate::c10::case_strategy().prop_map(|c| GenLine { prelude: vec![], line: crate::c10::case_line(&c), lang: c.lang.clone(), tz: None, src: "C10".into() });
     let c11 = crate::c11::case_strategy().prop_map(|c| GenLine { prelude: vec![], line: crate::c11::case_line(&c), lang: "en".into(), tz: c.default_tz.as_ref().map(|z| z.text()), src: "C11".into() });
     let c12 = crate::c12::shape_strategy().prop_map(|s| GenLine::simple(crate::c12::case_line(&crate::c12::Case { shape: s, seps: 0, glue: 0 }), "C12"));
@@ -122,7 +124,7 @@ pub fn any_line() -> impl Strategy<Value = GenLine> {
         crate::c05::value_strategy().prop_map(|p| Line::new(vec![Tok::with("", p, "%", Class::Percent)])),
         crate::c10::part_strategy().prop_map(|p| Line::new(p.toks("en"))),
     ];
-    let c03 = (var_value, 0u8..8, 0u8..6).prop_map(|(v, k, n)| {
+    let c03 = (var_value, 0u8..8, 0u8..8).prop_map(|(v, k, n)| {
         let (prelude, line) = with_variable(v, k, n);
         GenLine { prelude, line, lang: "en".into(), tz: None, src: "C03".into() }
     });
